@@ -223,6 +223,23 @@ def node_offset(lo):
     return 0
 
 
+class FinalStep:
+    """Report proxy for C03.rule_margin: for this property the bound must subtract the reach and at least the final step (1/target);
+    the larger steps at the start of a ramp are C03's concern (recorded there)."""
+    def __init__(self, rep):
+        self._rep = rep
+        self.ctx = rep.ctx
+
+    def ob(self, rule, key, ok, detail="", where="", sample=None):
+        if key.endswith("/step-margin/ceil-of-target-step-only"):
+            key, ok = key[:-len("/ceil-of-target-step-only")], True
+            detail = "loop bound subtracts ceil(1/target_ratio), the final step of the chunk: " + detail[:120]
+        return self._rep.ob("R-C05-bound", key, ok, detail, where, sample)
+
+    def __getattr__(self, name):
+        return getattr(self._rep, name)
+
+
 def run(rep):
     facts = rep.ctx.facts
     check_type_table(rep, "R-C05-shift")
@@ -239,21 +256,8 @@ def run(rep):
     # finding there; for this property the final step is what decides whether the last position lies inside the loaded data.)
     import C03
 
-    class _FinalStep:
-        def __init__(self, rep):
-            self._rep = rep
-            self.ctx = rep.ctx
-
-        def ob(self, rule, key, ok, detail="", where="", sample=None):
-            if key.endswith("/step-margin/ceil-of-target-step-only"):
-                key, ok = key[:-len("/ceil-of-target-step-only")], True
-                detail = "loop bound subtracts ceil(1/target_ratio), the final step of the chunk: " + detail[:120]
-            return self._rep.ob("R-C05-bound", key, ok, detail, where, sample)
-
-        def __getattr__(self, name):
-            return getattr(self._rep, name)
     for t in ("SincFixedIn", "FastFixedIn"):
-        rep.guarded("R-C05-bound", lambda r, t=t: C03.rule_margin(_FinalStep(r), t, asyncmodel.extract(facts, t)))
+        rep.guarded("R-C05-bound", lambda r, t=t: C03.rule_margin(FinalStep(r), t, asyncmodel.extract(facts, t)))
     rep.floor("R-C05-bound", 20)
     rep.clause("R-C05-bound", "fixed-input loops: the bound idx < end_idx subtracts the kernel's right reach and at least the final step of the chunk, so the last position of a call reads loaded frames only")
     import fftmodel
